@@ -445,13 +445,13 @@ class GenEval:
                 return sig
             # `if <undecided>: return A` : the rest of the block runs under the negated condition
             _, test, pol, val = sig
-            frames = self.capture_begin(env)
+            frames = self.branch_begin(env)
             self.cond_stack.append((test, not pol))
             try:
                 rest = self.exec_block(stmts[i + 1:], env)
             finally:
                 self.cond_stack.pop()
-                for o, got in self.capture_end(frames):
+                for o, got in self.branch_end(frames):
                     if got:
                         o.segs.append(CondSeg(test, not pol, tuple(got)))
             if rest is None:
@@ -599,6 +599,20 @@ class GenEval:
             o.captured += 1
         return frames
 
+    def branch_begin(self, env):
+        return [(o, len(o.segs)) for o in env.objects()]
+
+    def branch_end(self, frames):
+        """what an undecided branch appended to the accumulators (removed again; the caller wraps it in a CondSeg)"""
+        out = []
+        for o, n in frames:
+            if len(o.segs) < n:
+                raise AnalysisError("an accumulator is reordered / shortened inside a conditional branch")
+            got = o.segs[n:]
+            del o.segs[n:]
+            out.append((o, got))
+        return out
+
     def capture_end(self, frames):
         out = []
         for o, saved in frames:
@@ -621,13 +635,13 @@ class GenEval:
         results = []
         for pol, blk in ((True, st.body), (False, st.orelse)):
             env.vars = dict(before)
-            frames = self.capture_begin(env)
+            frames = self.branch_begin(env)
             self.cond_stack.append((test, pol))
             try:
                 sig = self.exec_block(blk, env)
             finally:
                 self.cond_stack.pop()
-            for o, got in self.capture_end(frames):
+            for o, got in self.branch_end(frames):
                 if got:
                     o.segs.append(CondSeg(test, pol, tuple(got)))
             results.append((sig, env.vars))
@@ -726,6 +740,8 @@ class GenEval:
             return KeysSp(v)
         if isinstance(v, (SeqV, Rev)):
             return SeqSp(v)
+        if isinstance(v, (CallV, Bin, Phi, Tup)):
+            return SeqSp(v)                                 # opaque iterable: its elements stay symbolic
         raise AnalysisError(f"iteration over {v!r} outside the subset")
 
     def exec_for(self, st, env):
@@ -891,7 +907,7 @@ class GenEval:
             return self.ev(e.body, env)
         if tv is False:
             return self.ev(e.orelse, env)
-        a, b = freeze(self.ev(e.body, env)), freeze(self.ev(e.orelse, env))
+        a, b = self.freeze_deep(self.ev(e.body, env)), self.freeze_deep(self.ev(e.orelse, env))
         return a if a == b else Phi(freeze(t), a, b)
 
     def ev_BoolOp(self, e, env):
@@ -1023,9 +1039,10 @@ class GenEval:
         for a in e.args:
             if isinstance(a, ast.Starred):
                 v = freeze(self.ev(a.value, env))
-                if not isinstance(v, Tup):
-                    raise AnalysisError(f"starred call argument that is not a known tuple: {norm(a)}")
-                args.extend(v.items)
+                if isinstance(v, Tup):
+                    args.extend(v.items)
+                else:
+                    args.append(CallV('*', (v,), ()))      # unknown number of arguments: stays opaque
             else:
                 args.append(self.ev(a, env))
         kwargs = {}
@@ -2021,6 +2038,8 @@ class Concretiser:
                     return x.nbits
                 if v.name == '__name__':
                     return repr(x)
+            if isinstance(x, Opaq):
+                return self.opaque.setdefault(f"{x.name}.{v.name}", Opaq(f"{x.name}.{v.name}"))
             raise AnalysisError(f"attribute {show(v)} cannot be concretised")
         if isinstance(v, FieldsOf):
             x = self.c(v.v, env)
@@ -2055,13 +2074,39 @@ class Concretiser:
                 x = x.elem
             return x
         if isinstance(v, Fold):
-            acc = self.c(v.init, env)
+            # all variables carried by the same loop are folded together (`a, b = f(a, b), g(a, b)`)
+            fl = [v] + [f for f in self.fold_stack[-1] if f.loop == v.loop and f.name != v.name]
+            seen, group = set(), []
+            for f in fl:
+                if f.name not in seen:
+                    seen.add(f.name)
+                    group.append(f)
+            accs = []
+            for f in group:
+                try:
+                    accs.append(self.c(f.init, env))
+                except AnalysisError:
+                    if f is v:
+                        raise
+                    accs.append(None)
             for b in self.iterate(v.loop, env):
                 e2 = dict(env)
                 e2.update(b)
-                e2[Carried(v.loop, v.name)] = acc
-                acc = self.c(v.step, e2)
-            return acc
+                for f, acc in zip(group, accs):
+                    if acc is not None or f is v:
+                        e2[Carried(f.loop, f.name)] = acc
+                nxt = []
+                for f, acc in zip(group, accs):
+                    try:
+                        nxt.append(self.c(f.step, e2) if (acc is not None or f is v) else None)
+                    except AnalysisError:
+                        if f is v:
+                            raise
+                        nxt.append(None)
+                accs = nxt
+            return accs[0]
+        if isinstance(v, CallV):
+            return self.libcall(v, env)
         if isinstance(v, Rec):
             return self.unfold(v, env)
         if isinstance(v, Fn):
@@ -2074,10 +2119,78 @@ class Concretiser:
             return v
         raise AnalysisError(f"value outside the concretiser: {show(v)[:80]}")
 
+    def libcall(self, v, env):
+        """the few library calls generators use on concrete data (itertools.product, map(range, ..), zip, reduce)"""
+        import itertools
+        args = [self.c(a, env) for a in v.args]
+
+        def expand(xs):
+            out = []
+            for x in xs:
+                if isinstance(x, tuple) and len(x) == 2 and x[0] == '*':
+                    out.extend(x[1])
+                else:
+                    out.append(x)
+            return out
+        name = v.fn
+        if name == '*':
+            return ('*', list(args[0]))
+        if name == 'map' and len(args) == 2 and isinstance(args[0], Opaq) and args[0].name == 'range':
+            return [range(x) for x in args[1]]
+        if name == '.product' and isinstance(args[0], Opaq) and args[0].name == 'itertools':
+            return [tuple(x) for x in itertools.product(*expand(args[1:]))]
+        if name == 'zip':
+            return [tuple(x) for x in zip(*expand(args))]
+        if name == '.reduce' and isinstance(args[0], Opaq) and args[0].name == 'functools' and len(args) in (3, 4) \
+                and isinstance(args[1], Opaq) and args[1].name in ('operator.mul', 'operator.add'):
+            acc = args[3] if len(args) == 4 else (1 if args[1].name.endswith('mul') else 0)
+            for x in args[2]:
+                acc = acc * x if args[1].name.endswith('mul') else acc + x
+            return acc
+        if name == 'range' and all(isinstance(a, int) for a in args):
+            return list(range(*args))
+        if name in ('list', 'tuple') and len(args) == 1:
+            return list(args[0])
+        if name == 'sum' and len(args) == 1:
+            return sum(args[0])
+        raise AnalysisError(f"call outside the concretiser: {show(v)[:80]}")
+
+    def run_opaque(self, rec, env):
+        """a recursive function of the module that is not a traversal helper, applied to a concrete type shape:
+        interpreted by the tiny interpreter over nested lists of leaf tokens"""
+        module = getattr(self, 'module', None)
+        if module is None or rec.fn not in module.functions:
+            raise AnalysisError(f"recursive helper {rec.fn} was not analysed")
+        table = {}
+
+        def down(x):
+            if isinstance(x, Shape) and x.kind == 'list':
+                return [down(x.elem) for _ in range(x.n)]
+            if isinstance(x, Shape):
+                lf = table.setdefault(id(x), (Leaf(f"T{len(table)}", x.kind), x))
+                return lf[0]
+            if isinstance(x, (int, str)):
+                return x
+            raise AnalysisError(f"argument of {rec.fn} outside the tiny interpreter")
+
+        def up(x):
+            if isinstance(x, Leaf):
+                for lf, sh in table.values():
+                    if lf is x:
+                        return sh
+            if isinstance(x, (list, tuple)):
+                return [up(y) for y in x]
+            return x
+        args = [down(self.c(a, env)) for a in rec.args]
+        try:
+            return up(TinyInterp(module).call(rec.fn, args))
+        except TinyExc as ex:
+            raise AnalysisError(f"{rec.fn} raises {ex.cls} on a grid shape")
+
     def unfold(self, rec, env):
         h = self.helpers.get(rec.fn)
         if h is None:
-            raise AnalysisError(f"recursive helper {rec.fn} was not analysed")
+            return self.run_opaque(rec, env)
         e2 = {}
         for n, val in rec.closure:
             e2[Sym(n)] = self.c(val, env)
@@ -2181,8 +2294,11 @@ def emitted_actions(fdef, limit=4096):
                     e2[st.target.id] = i
                     block(st.body, e2, False)
             elif isinstance(st, ast.AugAssign):
-                out.append(('aug', type(st.op).__name__, emitted_path(st.target, env) or norm(st.target),
-                            emitted_path(st.value, env) or norm(st.value)))
+                val = emitted_path(st.value, env)
+                if val is None:
+                    sv = emitted_struct(st.value, env)
+                    val = sv if sv[0] == 'slice' else norm(st.value)
+                out.append(('aug', type(st.op).__name__, emitted_path(st.target, env) or norm(st.target), val))
             elif isinstance(st, ast.Assign):
                 out.append(('assign', tuple(emitted_path(t, env) or norm(t) for t in st.targets), emitted_struct(st.value, env)))
             elif isinstance(st, ast.Expr) and isinstance(st.value, ast.Call):
@@ -2191,6 +2307,11 @@ def emitted_actions(fdef, limit=4096):
                 out.append(('return', None if st.value is None else emitted_struct(st.value, env)))
             elif isinstance(st, ast.If) and top:
                 out.append(('if', norm(st.test)))
+                n0 = len(out)
+                block(st.body, env, False)
+                out[n0:] = [('cond', a) for a in out[n0:]]
+                if st.orelse:
+                    raise AnalysisError("emitted conditional with an else branch")
             elif isinstance(st, (ast.Pass, ast.Assert)) or (isinstance(st, ast.Expr) and isinstance(st.value, ast.Constant)):
                 pass
             else:
